@@ -173,7 +173,7 @@ def impl(case):
 
 def compare(case, io, mo):
     r = C.std_compare(io, mo, tol=1e-10)
-    if r != "ok" and case["fn"] == "block_mean" and not C.is_err(io):
+    if r != "ok" and case["fn"] == "block_mean":
         a = case["args"]
         if B.near_tie(a[0][0], a[0][1], a[4], a[5], a[6], a[7]):
             return "amb"
